@@ -103,7 +103,7 @@ CHECKS = {
     level='other',
     text=('Kernels only (end-to-end divide_cell with its clock-seeded Poisson sampling, Delaunay triangulation and remeshing is not encoded): from the LLVM IR in exact reals, z3 decides per path (K1) find_edge_plane_intersection: a returned point lies on the plane and on the segment, '
           'and "no intersection" is never returned for end points strictly on opposite sides; (K2) map_points_to_xy_plane + map_points_to_division_plane as divide_cell composes them, for every unit division axis except (0,0,-1) (both branches: axis = +z and the quaternion branch): '
-          'rotation orthonormal and axis -> +z, interface flattened isometrically, round trip exact, points created at z = 0 return into the division plane through the interface centroid. 2-3 (4 thorough) interface points, 1 (2) new points; (K3) add_point_to_face + divide_faces on two triangles sharing the cut edge with symbolic distinct node ids, every stored rotation / cut-edge pair / insertion order (72 structures): the six triangles tile the cut faces with the original orientation. '
+          'rotation orthonormal and axis -> +z, interface flattened isometrically, round trip exact, points created at z = 0 return into the division plane through the interface centroid. 2-3 (4 thorough) interface points, 1 (2) new points; (K3) add_point_to_face + divide_faces on two triangles sharing the cut edge with symbolic distinct node ids, every stored rotation / cut-edge pair / insertion order (72 structures): the six triangles tile the cut faces with the original orientation; (K4) the real body of divide_cell with its stages replaced by stand-ins that succeed or throw (division_exception, mesh_integrity_exception, intialization_exception, std::bad_alloc at each of five stages): both daughters are of the class of the mother and inherit half of her symbolic TARGET volume, every stage failure becomes "no division" without an escaping exception and without touching the mother. '
           'Daughter validity, volumes, the no-throw guarantee and success-or-unchanged of the whole pipeline are NOT covered; population bookkeeping of cell_divider::run is covered by C08 with divide_cell replaced by its contract.'),
     note='Trusted: clang lowering (validated per run), irsym, z3 NRA + polynomial normaliser. Three extra distance identities for three interface points stay undecided within the quick time limit (non-core; implied by the proved orthonormality and round trip).',
     technique='symbolic execution of LLVM IR; z3 nonlinear real arithmetic with sqrt definitions (polynomial normaliser first); native replay',
